@@ -245,7 +245,7 @@ func TestVerif_C03(t *testing.T) {
 		var routeTerms []string
 		for d := 1; d <= nRcpt; d++ {
 			ts := []int{r.intn(nTargets)}
-			if !lmtp && r.chance(35) {
+			if r.chance(35) {
 				t2 := r.intn(nTargets)
 				if t2 != ts[0] {
 					ts = append(ts, t2)
